@@ -530,6 +530,44 @@ def b_map(I, a, k):
     return Mo.IterV(tuple(I.call(f, list(args), {}) for args in zip(*seqs)))
 
 
+def b_open(I, a, k):
+    """open(name, mode): an opaque file object; what is written to it is the business of whoever is handed the object
+    (dill.dump is an assumed contract); every open / close is logged in the ghost state"""
+    mode = a[1] if len(a) > 1 else k.get('mode', 'r')
+    f = I.st.alloc('obj', {'name': a[0], 'mode': mode, 'closed': False}, name='file')
+    I.st.ghost.setdefault('files', []).append(('open', a[0], mode, f))
+
+    def close(I_, aa, kk):
+        I_.st.heap[f]['closed'] = True
+        I_.st.ghost.setdefault('files', []).append(('close', a[0], mode, f))
+        return None
+    I.st.heap[f]['close'] = Builtin('file.close', close)
+    return f
+
+
+def b_compile(I, a, k):
+    """compile(source, name, 'exec') of a CONCRETE source text: the text itself (executed by b_exec through the same
+    front end as every other piece of code)"""
+    if not isinstance(a[0], str) or (len(a) > 2 and a[2] != 'exec'):
+        raise Unsupported('compile of a symbolic text / other than exec mode')
+    return a[0]
+
+
+def b_exec(I, a, k):
+    """exec(text, namespace-dict) for a concrete text: parsed and executed by this interpreter; names are read from and
+    written to the given dict"""
+    from .interp import Env
+    code, g = a[0], (a[1] if len(a) > 1 else None)
+    if not isinstance(code, str) or not (isinstance(g, Ref) and g.kind == 'dict') or len(a) > 2:
+        raise Unsupported('exec of a symbolic text / without an explicit namespace dict')
+    cell = I.st.heap[g]
+    env = Env(dict(cell), None, None)
+    I.exec_block(ast.parse(code.strip()).body, env)
+    I.st.note_write(g)
+    cell.update(env.vars)
+    return None
+
+
 def b_sorted(I, a, k):
     items = Mo.concrete_iter(I, a[0])
     key = k.get('key')
@@ -813,6 +851,9 @@ def builtins(I):
     reg('zip', b_zip)
     reg('reversed', b_reversed)
     reg('map', b_map)
+    reg('open', b_open)
+    reg('compile', b_compile)
+    reg('exec', b_exec)
     reg('sorted', b_sorted)
     reg('pow', b_pow)
     reg('round', b_round)
